@@ -605,7 +605,7 @@ func TestVf_C05(t *testing.T) {
 	ncases := vfkit.Pick(160, 1200)
 	nelem := vfkit.Pick(60, 300)
 	r := vfkit.Rand(5)
-	for c := 0; c < ncases; c++ {
+	for c := 0; c < ncases && !run.Enough(); c++ {
 		cs := &vfC05Case{Seed: vfkit.Seed()*1000 + int64(c)}
 		switch c % 8 {
 		case 0, 1, 2, 3:
